@@ -1,6 +1,7 @@
 from vlib import Check
 
 TRUSTED = [
+    "tie (T), added: the statement lists of the functions this property's model was transcribed from are regenerated from /repo on every run (Gen/Stmts.lean) and pinned against the committed transcription source by the kernel-decided theorem source_as_modelled; the step from statements to model is by reading and is what the differential runs check",
     "Lean 4.33.0 kernel; axioms of every theorem audited",
     "hand-written model Model/BoxConc.lean (threads cut at the yield points of msg/msgbox.go) on top of Model/Box.lean, tied step by step (events and stop reason of every scheduling step) by the harness component boxsched",
     "the yield hooks (build tag verif) sit where the running goroutine holds no lock; the controlled scheduler runs real goroutines one at a time and re-executes every schedule from scratch",
@@ -13,7 +14,7 @@ ASSUME = [
 
 def main():
     c = Check("C14")
-    c.prove(gen=["boxconsts"])
+    c.prove(gen=["boxconsts", "stmts"])
     c.correspond("boxsched")
     return c.finish(
         rule="controlled scheduler over the real msg.Box: 7 scenarios (1-3 receiving threads with 1-2 messages each, 1-2 sending threads, same and different topics); stateless depth-first enumeration of ALL "
